@@ -110,47 +110,53 @@ def run_case(acc: Acc, seed: int, idx: int) -> None:
         f = root / rel
         f.parent.mkdir(parents=True, exist_ok=True)
         f.write_text(text)
-    before = {str(f.relative_to(root)): f.read_bytes() for f in sorted(root.rglob("*")) if f.is_file()}
-    a_arg = a + (".zo" if rng.random() < 0.4 else "")
-    b_arg = b + (".zo" if rng.random() < 0.4 else "")
-    case = {"seed": seed, "idx": idx, "a": a_arg, "b": b_arg, "files": files}
-    TRACER.start(root)
-    r = db.cli(root, "file", "rename", a_arg, b_arg)
-    ev = TRACER.stop()
-    acc.judged += 1
-    if r.rc != 0:
-        acc.violation(f"`file rename {a_arg} {b_arg}` failed rc={r.rc} {r.err[-300:]}", case, cls="file rename fails")
-        return
-    after = {str(f.relative_to(root)): f.read_bytes() for f in sorted(root.rglob("*")) if f.is_file()}
-    if a + ".zo" in after:
-        acc.violation(f"{a}.zo still exists after the rename", case, cls="source page still exists")
-    if b + ".zo" not in after:
-        acc.violation(f"{b}.zo does not exist after the rename", case, cls="destination page missing")
-        return
-    n_total = 0
-    should_write = set()
-    for rel, old in before.items():
-        new_rel = b + ".zo" if rel == a + ".zo" else rel
-        exp, n = expected_text(old.decode(), a, b)
-        n_total += n
-        if n:
-            should_write.add(new_rel)
-        got = after.get(new_rel)
-        if got is None:
-            acc.violation(f"{new_rel} disappeared", case, cls="file disappeared")
-            continue
-        if got.decode() != exp:
-            gl, el = got.decode().split("\n"), exp.split("\n")
-            d = next(((g, e) for g, e in zip(gl, el) if g != e), (None, None))
-            left = any(("[[" + a + "]]") in g or ("[[" + a + "#") in g for g in gl)
-            acc.violation(f"{new_rel}: content differs from 'every link to {a} retargeted to {b}, every other byte unchanged': got {d[0]!r}, expected {d[1]!r}", case, cls="link to the renamed page left behind" if left else "bytes changed that are not a link target equal to A")
-    acc.count("links.rewritten", n_total)
-    written = {e[1] for e in ev if e[0] == "write"}
-    if written - should_write:
-        acc.violation(f"files written although they contain no link to {a}: {sorted(written - should_write)}", case, cls="file without such a link was written")
-    if n_total and len(set(used)) > 2:
-        acc.sig((tuple(sorted(set(used))), "/" in a, "/" in b, a_arg.endswith(".zo"), b_arg.endswith(".zo")))
-    acc.sample({"a": a_arg, "b": b_arg, "links_rewritten": n_total, "effects": [list(e) for e in ev][:8]}, cap=2)
+    for step in range(2):
+        if step == 1:
+            # a second rename in the same directory: B -> C (the links were retargeted to B by the first one)
+            a, b = b, (b.rsplit("/", 1)[0] + "/" if "/" in b and rng.random() < 0.5 else "") + rng.choice(["third", "c_name", "renamed2"])
+            if (root / (b + ".zo")).exists():
+                break
+        before = {str(f.relative_to(root)): f.read_bytes() for f in sorted(root.rglob("*")) if f.is_file()}
+        a_arg = a + (".zo" if rng.random() < 0.4 else "")
+        b_arg = b + (".zo" if rng.random() < 0.4 else "")
+        case = {"seed": seed, "idx": idx, "a": a_arg, "b": b_arg, "files": files}
+        TRACER.start(root)
+        r = db.cli(root, "file", "rename", a_arg, b_arg)
+        ev = TRACER.stop()
+        acc.judged += 1
+        if r.rc != 0:
+            acc.violation(f"`file rename {a_arg} {b_arg}` failed rc={r.rc} {r.err[-300:]}", case, cls="file rename fails")
+            break
+        after = {str(f.relative_to(root)): f.read_bytes() for f in sorted(root.rglob("*")) if f.is_file()}
+        if a + ".zo" in after:
+            acc.violation(f"{a}.zo still exists after the rename", case, cls="source page still exists")
+        if b + ".zo" not in after:
+            acc.violation(f"{b}.zo does not exist after the rename", case, cls="destination page missing")
+            break
+        n_total = 0
+        should_write = set()
+        for rel, old in before.items():
+            new_rel = b + ".zo" if rel == a + ".zo" else rel
+            exp, n = expected_text(old.decode(), a, b)
+            n_total += n
+            if n:
+                should_write.add(new_rel)
+            got = after.get(new_rel)
+            if got is None:
+                acc.violation(f"{new_rel} disappeared", case, cls="file disappeared")
+                continue
+            if got.decode() != exp:
+                gl, el = got.decode().split("\n"), exp.split("\n")
+                d = next(((g, e) for g, e in zip(gl, el) if g != e), (None, None))
+                left = any(("[[" + a + "]]") in g or ("[[" + a + "#") in g for g in gl)
+                acc.violation(f"{new_rel}: content differs from 'every link to {a} retargeted to {b}, every other byte unchanged': got {d[0]!r}, expected {d[1]!r}", case, cls="link to the renamed page left behind" if left else "bytes changed that are not a link target equal to A")
+        acc.count("links.rewritten", n_total)
+        written = {e[1] for e in ev if e[0] == "write"}
+        if written - should_write:
+            acc.violation(f"files written although they contain no link to {a}: {sorted(written - should_write)}", case, cls="file without such a link was written")
+        if n_total and len(set(used)) > 2:
+            acc.sig((tuple(sorted(set(used))), "/" in a, "/" in b, a_arg.endswith(".zo"), b_arg.endswith(".zo")))
+        acc.sample({"a": a_arg, "b": b_arg, "links_rewritten": n_total, "effects": [list(e) for e in ev][:8]}, cap=2)
     shutil.rmtree(root.parent, ignore_errors=True)
 
 
